@@ -47,6 +47,7 @@ type vfOpts struct {
 	Forward        bool     `json:"forward,omitempty"`
 	LogReq         []string `json:"log_req,omitempty"`
 	LogResp        []string `json:"log_resp,omitempty"`
+	CertOnly       bool     `json:"cert_only,omitempty"` // certificate and key paths given although TLS is off
 }
 
 type vfCmd struct {
@@ -133,6 +134,9 @@ func (o vfOpts) serviceOptions(spec vfSvcSpec, fault string) ServiceOptions {
 	case 2:
 		so.TLSEnabled = true
 		so.ACMECachePath = vfFix.acme
+	}
+	if o.CertOnly && o.TLS == 0 {
+		so.TLSCertificatePath, so.TLSPrivateKeyPath = vfFix.cert, vfFix.key
 	}
 	switch o.ErrPages {
 	case 1:
